@@ -316,7 +316,8 @@ func SimC01(c *CheckCtx, i int, r *Rng) error {
 			points = append(points, fp{e.Kind[3:] + ":" + e.Path, proto.Fault{ExecSeq: -1, Kind: e.Kind, Path: e.Path, Phase: "exec", Nth: e.Nth, Do: "errno:" + Pick(r, []string{"EACCES", "EIO", "ENOSPC"})}})
 		}
 	}
-	for path, ws := range writes {
+	for _, path := range sortedKeys(writes) { // (never iterate a map where the order feeds the PRNG)
+		ws := writes[path]
 		pick := map[int]bool{0: true, len(ws) - 1: true, len(ws) / 2: true}
 		for k := 0; k < 4 && k < len(ws); k++ {
 			pick[k] = true // header comment and package clause
